@@ -214,6 +214,7 @@ def step (c : Ctx) (line : String) : Ctx × String :=
   | "progress" :: _ => (c, Uberjob.Progress.drv line)
   | "phys" :: _ => (c, Uberjob.Phys.drv line)
   | "exec" :: _ => (c, Uberjob.Exec.drv line)
+  | "execn" :: _ => (c, Uberjob.Exec.drv line)
   | "notifs" :: _ => (c, Notify.drv line)
   | "rq" :: _ => (c, Queues.drv line)
   | "cplan" :: _ => let (d, r) := Cache.drv c.cache line; ({ c with cache := d }, r)
